@@ -50,7 +50,7 @@ def main():
             return 2
         ok = True
         if a.tests:
-            r = subprocess.run(["/venv/bin/python", "-m", "pytest", "-q", "-x", "-p", "no:cacheprovider", "tests"],
+            r = subprocess.run(["/venv/bin/python", "-m", "pytest", "-q", "-p", "no:cacheprovider", "tests"],
                                cwd=tmp, capture_output=True, text=True, env={**os.environ, "PYTHONPATH": tmp})
             tail = r.stdout.strip().splitlines()[-1] if r.stdout.strip() else r.stderr[-300:]
             print(f"repo tests on mutant: {tail}")
